@@ -11,6 +11,7 @@ import (
 	"net"
 	"net/netip"
 	"strings"
+	"sync"
 	"testing"
 
 	"github.com/AdguardTeam/AdGuardHome/internal/dhcpsvc"
@@ -48,10 +49,12 @@ func c04TagsNum(tags []string) string {
 }
 
 // c04DHCP is the DHCP server the storage asks for the MAC of a lease.
-type c04DHCP struct{ macs map[netip.Addr]net.HardwareAddr }
+type c04DHCP struct {
+	macs map[netip.Addr]net.HardwareAddr
+}
 
 func (d *c04DHCP) Leases() (leases []*dhcpsvc.Lease)      { return nil }
-func (d *c04DHCP) HostByIP(_ netip.Addr) (host string)     { return "" }
+func (d *c04DHCP) HostByIP(_ netip.Addr) (host string)    { return "" }
 func (d *c04DHCP) MACByIP(ip netip.Addr) net.HardwareAddr { return d.macs[ip] }
 
 type c04Probe struct {
@@ -62,7 +65,24 @@ type c04Probe struct {
 	hasMAC bool
 }
 
+// c04Services are real blocked-service ids; the index is what travels on the
+// line (0 is the global list's).
+var c04Services = []string{"4chan", "500px", "9gag", "amazon", "aliexpress", "amino", "activision_blizzard", "amazon_streaming"}
+
+func c04ServiceNum(name string) string {
+	for i, n := range c04Services {
+		if n == name {
+			return vutil.Itoa(i)
+		}
+	}
+
+	return "?" + vutil.Hex(name)
+}
+
+var c04InitOnce sync.Once
+
 type c04State struct {
+	flt    *filtering.DNSFilter
 	st     *Storage
 	dhcp   *c04DHCP
 	probes []c04Probe
@@ -141,10 +161,42 @@ func c04Client(f []string, i int) (p *Persistent, next int) {
 	p.UseOwnBlockedServices = vutil.UnB(f[i+6])
 	p.BlockedServices = &filtering.BlockedServices{
 		Schedule: schedule.EmptyWeekly(),
-		IDs:      []string{"svc" + f[i+7]},
+		IDs:      []string{c04Services[vutil.Atoi(f[i+7])]},
 	}
 
 	return p, i + 10
+}
+
+// c04ClientS decodes a client whose identifiers are strings and runs the real
+// SetIDs on them.
+func c04ClientS(f []string, i int) (p *Persistent, err error) {
+	p = &Persistent{}
+	p.UID = c04UID(uint64(vutil.Atoi(f[i])))
+	p.UpstreamsCacheSize = uint32(vutil.Atoi(f[i+1]))
+	p.Name = vutil.Unhex(f[i+2])
+	n := vutil.Atoi(f[i+3])
+	i += 4
+	var ids []string
+	for ; n > 0; n-- {
+		ids = append(ids, vutil.Unhex(f[i]))
+		i += 11
+	}
+	// reuse the tail decoder: "0 0 0 0" = no typed identifiers, then the flags
+	tail := append([]string{"0", "0", "", "0", "0", "0", "0"}, f[i:]...)
+	q, _ := c04Client(tail, 0)
+	q.UID, q.UpstreamsCacheSize, q.Name = p.UID, p.UpstreamsCacheSize, p.Name
+
+	return q, q.SetIDs(ids)
+}
+
+func c04SetIDsErr(err error) []string {
+	if strings.Contains(err.Error(), "clientid is empty") {
+		return []string{"err", "emptyID"}
+	} else if strings.Contains(err.Error(), "invalid clientid") {
+		return []string{"err", "badID"}
+	}
+
+	return []string{"err", "other:" + vutil.Hex(err.Error())}
 }
 
 func c04ErrKind(err error) []string {
@@ -191,9 +243,10 @@ func c04Guard(f func() string) (s string) {
 	return f()
 }
 
+// c04Global is what DNSFilter.Settings() returns for the filter of the harness
+// (checked at reset), with ProtectionEnabled set so that clearing it would show.
 func c04Global() *filtering.Settings {
 	return &filtering.Settings{
-		BlockedServices:     &filtering.BlockedServices{Schedule: schedule.EmptyWeekly(), IDs: []string{"svc0"}},
 		ProtectionEnabled:   true,
 		FilteringEnabled:    true,
 		SafeSearchEnabled:   false,
@@ -202,11 +255,16 @@ func c04Global() *filtering.Settings {
 	}
 }
 
-// c04ShowSettings prints EVERY field of filtering.Settings.
-func c04ShowSettings(setts *filtering.Settings) string {
+// c04ShowSettings prints EVERY field of filtering.Settings after the real
+// per-request path (DNSFilter.ApplyAdditionalFiltering).  The effective blocked
+// services are read where the filter reads them: ServicesRules.
+func c04ShowSettings(setts *filtering.Settings, addr netip.Addr) string {
 	svc := "?"
-	if setts.BlockedServices != nil && len(setts.BlockedServices.IDs) == 1 {
-		svc = strings.TrimPrefix(setts.BlockedServices.IDs[0], "svc")
+	if len(setts.ServicesRules) == 1 {
+		svc = c04ServiceNum(setts.ServicesRules[0].Name)
+	}
+	if bs := setts.BlockedServices; bs != nil && (len(bs.IDs) != 1 || c04ServiceNum(bs.IDs[0]) != svc) {
+		svc = "?mismatch"
 	}
 	sso := "0"
 	switch v := setts.ClientSafeSearch.(type) {
@@ -216,7 +274,8 @@ func c04ShowSettings(setts *filtering.Settings) string {
 	default:
 		sso = "?"
 	}
-	untouched := !setts.ClientIP.IsValid() && setts.ServicesRules == nil
+	// ClientIP is the request's address and nothing else about it changed.
+	untouched := setts.ClientIP == addr
 
 	return strings.Join([]string{
 		"S", vutil.Hex(setts.ClientName), c04TagsNum(setts.ClientTags), svc, vutil.B(setts.FilteringEnabled),
@@ -239,10 +298,12 @@ func c04Observe(c *c04State) (out []string) {
 			case "m":
 				return c04Show(s.index.findByMAC(pr.mac))
 			case "a":
+				// the path of a DNS request: dnsforward's
+				// clientRequestFilteringSettings = Settings() + ApplyAdditionalFiltering
 				setts := c04Global()
-				s.ApplyClientFiltering(pr.s, pr.ip, setts)
+				c.flt.ApplyAdditionalFiltering(pr.ip, pr.s, setts)
 
-				return c04ShowSettings(setts)
+				return c04ShowSettings(setts, pr.ip)
 			case "f":
 				return c04Show(s.Find(pr.s))
 			default:
@@ -276,7 +337,25 @@ func c04Run(f []string) []string {
 		if err != nil {
 			panic(err)
 		}
-		c := &c04State{st: st, dhcp: d}
+		c04InitOnce.Do(filtering.InitModule)
+		flt, err := filtering.New(&filtering.Config{
+			ApplyClientFiltering: st.ApplyClientFiltering,
+			BlockedServices: &filtering.BlockedServices{
+				Schedule: schedule.EmptyWeekly(), IDs: []string{c04Services[0]},
+			},
+			BlockingMode:        filtering.BlockingModeDefault,
+			SafeBrowsingEnabled: true,
+		}, nil)
+		if err != nil {
+			panic(err)
+		}
+		flt.SetEnabled(true)
+		g, w := flt.Settings(), c04Global()
+		if g.FilteringEnabled != w.FilteringEnabled || g.SafeSearchEnabled != w.SafeSearchEnabled ||
+			g.SafeBrowsingEnabled != w.SafeBrowsingEnabled || g.ParentalEnabled != w.ParentalEnabled {
+			panic("c04Global is not DNSFilter.Settings()")
+		}
+		c := &c04State{st: st, dhcp: d, flt: flt}
 		n := vutil.Atoi(f[1])
 		for k := 0; k < n; k++ {
 			g := f[2+8*k : 2+8*k+8]
@@ -318,6 +397,20 @@ func c04Run(f []string) []string {
 		case "C04.update":
 			p, _ := c04Client(f, 2)
 			res = c04ErrKind(c.st.Update(ctx, vutil.Unhex(f[1]), p))
+		case "C04.addS":
+			p, serr := c04ClientS(f, 1)
+			if serr != nil {
+				res = c04SetIDsErr(serr)
+			} else {
+				res = c04ErrKind(c.st.Add(ctx, p))
+			}
+		case "C04.updateS":
+			p, serr := c04ClientS(f, 2)
+			if serr != nil {
+				res = c04SetIDsErr(serr)
+			} else {
+				res = c04ErrKind(c.st.Update(ctx, vutil.Unhex(f[1]), p))
+			}
 		case "C04.remove":
 			if c.st.RemoveByName(ctx, vutil.Unhex(f[1])) {
 				res = []string{"ok"}
@@ -359,6 +452,7 @@ var c04Subnets = []string{
 
 // Addresses probed in addition to the identifiers themselves.
 var c04ExtraAddrs = []string{
+	"0:11:22:33:44:55:66:77", // what SetIDs makes of an 8-byte MAC written with colons
 	"10.0.0.3", "10.0.0.7", "10.0.5.5", "10.9.9.9", "11.1.1.1", "192.168.7.7", "2001:db8::5", "2001:db8:1::1",
 	"fe80::9%eth0", "::ffff:10.0.0.9", "2002::1", "200.1.1.1",
 }
@@ -443,6 +537,16 @@ func (c *c04GenClient) ids(k int) (keys []string) {
 	}
 
 	return keys
+}
+
+func (c *c04GenClient) hasBadMAC() bool {
+	for _, m := range c.macs {
+		if m == c04BadMAC {
+			return true
+		}
+	}
+
+	return false
 }
 
 func (c *c04GenClient) allIDs() (keys []string) {
@@ -598,7 +702,126 @@ func (sh *c04Shadow) free(r *rand.Rand, k int, taken []string) (key string, ok b
 	return vutil.Pick(r, fr), true
 }
 
-func c04Gen(r *rand.Rand, emit vutil.Emit) {
+// c04SpellMAC writes a MAC in one of the spellings net.ParseMAC accepts.
+func c04SpellMAC(r *rand.Rand, m string) (s string) {
+	h := hex.EncodeToString([]byte(m))
+	var parts []string
+	sep := ":"
+	switch r.IntN(3) {
+	case 0:
+		sep = "-"
+	case 1:
+		if len(m)%2 == 0 {
+			sep = "."
+			for i := 0; i < len(h); i += 4 {
+				parts = append(parts, h[i:i+4])
+			}
+		}
+	}
+	if parts == nil {
+		for i := 0; i < len(h); i += 2 {
+			parts = append(parts, h[i:i+2])
+		}
+	}
+	s = strings.Join(parts, sep)
+	if r.IntN(2) == 0 {
+		s = strings.ToUpper(s)
+	}
+
+	return s
+}
+
+func c04SpellCID(r *rand.Rand, id string) string {
+	b := []byte(id)
+	for i := range b {
+		if b[i] >= 'a' && b[i] <= 'z' && r.IntN(3) == 0 {
+			b[i] -= 32
+		}
+	}
+
+	return string(b)
+}
+
+// c04IDStringFields encodes one identifier string with what the three parsers
+// make of it (the classification itself is the model's).
+func c04IDStringFields(s string) (f []string) {
+	f = []string{vutil.Hex(s)}
+	if ip, err := netip.ParseAddr(s); err == nil {
+		f = append(f, "1")
+		f = append(f, c04IPFields(ip)...)
+	} else {
+		f = append(f, "0", "0", "-", "-")
+	}
+	if p, err := netip.ParsePrefix(s); err == nil {
+		f = append(f, "1", vutil.B(!p.Addr().Is4()), hex.EncodeToString(p.Addr().AsSlice()), vutil.Itoa(p.Bits()))
+	} else {
+		f = append(f, "0", "0", "-", "0")
+	}
+	if mac, err := net.ParseMAC(s); err == nil {
+		f = append(f, "1", vutil.Hex(string(mac)))
+	} else {
+		f = append(f, "0", "-")
+	}
+
+	return f
+}
+
+var c04BadIDStrings = []string{"", "a_b", "-x", "1.2.3.4/33", "02:00:00:00:00", "fe80::1%eth0/64x", "a.b"}
+
+// stringFields is fields() with the identifiers as strings in random order and
+// spelling (the input of SetIDs).
+func (c *c04GenClient) stringFields(r *rand.Rand) (f []string) {
+	var ids []string
+	for _, ip := range c.ips {
+		ids = append(ids, ip.String())
+	}
+	for _, p := range c.subs {
+		ids = append(ids, p.String())
+	}
+	for _, m := range c.macs {
+		ids = append(ids, c04SpellMAC(r, m))
+	}
+	for _, id := range c.cids {
+		ids = append(ids, c04SpellCID(r, id))
+	}
+	r.Shuffle(len(ids), func(i, j int) { ids[i], ids[j] = ids[j], ids[i] })
+	if r.IntN(25) == 0 {
+		k := r.IntN(len(ids) + 1)
+		ids = append(ids[:k:k], append([]string{vutil.Pick(r, c04BadIDStrings)}, ids[k:]...)...)
+	}
+	f = []string{vutil.Itoa(c.uid), vutil.Itoa(c.ver), vutil.Hex(c.name), vutil.Itoa(len(ids))}
+	for _, s := range ids {
+		f = append(f, c04IDStringFields(s)...)
+	}
+	for _, b := range c.flags {
+		f = append(f, vutil.B(b))
+	}
+
+	return append(f, vutil.Itoa(c.svc), vutil.Itoa(c.ssObj), vutil.Itoa(c.tags))
+}
+
+func c04Gen(r *rand.Rand, emit0 vutil.Emit) {
+	// Half of the adds and updates go through the real SetIDs: identifiers as
+	// strings.  The client's field list is the last argument group of the op.
+	var pending *c04GenClient
+	emit := func(fields ...string) {
+		c := pending
+		pending = nil
+		if c != nil && r.IntN(2) == 0 && !c.hasBadMAC() {
+			switch fields[0] {
+			case "C04.add":
+				emit0(append([]string{"C04.addS"}, c.stringFields(r)...)...)
+
+				return
+			case "C04.update":
+				emit0(append([]string{"C04.updateS", fields[1]}, c.stringFields(r)...)...)
+
+				return
+			}
+		}
+		emit0(fields...)
+	}
+	_ = emit
 	n := vutil.N(2000)
 	ver := 0
 	for h := 0; h < n; h++ {
@@ -675,7 +898,7 @@ func c04Gen(r *rand.Rand, emit vutil.Emit) {
 		var live []string // names that were accepted at some point (may be stale: good)
 		genClient := func() *c04GenClient {
 			ver++
-			c := &c04GenClient{ver: ver, name: vutil.Pick(r, c04Names), svc: ver}
+			c := &c04GenClient{ver: ver, name: vutil.Pick(r, c04Names), svc: 1 + ver%(len(c04Services)-1)}
 			switch r.IntN(30) {
 			case 0:
 				c.name = ""
@@ -775,6 +998,7 @@ func c04Gen(r *rand.Rand, emit vutil.Emit) {
 					continue
 				}
 				c := derive(a, nil, r.IntN(4), 1+r.IntN(2))
+				pending = c
 				emit(append([]string{"C04.update", vutil.Hex(a.name)}, c.fields()...)...)
 				sh.update(a.name, c)
 			case x >= 106 && x < 113:
@@ -797,6 +1021,7 @@ func c04Gen(r *rand.Rand, emit vutil.Emit) {
 				if r.IntN(5) == 0 {
 					c.name = vutil.Pick(r, c04Names)
 				}
+				pending = c
 				emit(append([]string{"C04.update", vutil.Hex(a.name)}, c.fields()...)...)
 				sh.update(a.name, c)
 			case x >= 113:
@@ -811,11 +1036,13 @@ func c04Gen(r *rand.Rand, emit vutil.Emit) {
 					kd = (kd + 1) % 4
 				}
 				c := derive(nil, b, kd, 1+r.IntN(3))
+				pending = c
 				emit(append([]string{"C04.add"}, c.fields()...)...)
 				sh.add(c)
 				live = append(live, c.name)
 			case x < 38:
 				c := genClient()
+				pending = c
 				emit(append([]string{"C04.add"}, c.fields()...)...)
 				sh.add(c)
 				live = append(live, c.name)
@@ -828,6 +1055,7 @@ func c04Gen(r *rand.Rand, emit vutil.Emit) {
 				if r.IntN(3) == 0 {
 					c.name = name // not a rename
 				}
+				pending = c
 				emit(append([]string{"C04.update", vutil.Hex(name)}, c.fields()...)...)
 				sh.update(name, c)
 				live = append(live, c.name)
